@@ -1,5 +1,6 @@
 -- driver-prefix: repeat
 import EdzedModel.Repeat
+import EdzedModel.RepeatCtor
 
 /-!
 Line protocol of the Repeat model (parsing / printing only).
@@ -11,7 +12,11 @@ repeat event <t µs> <B|T|A> <x|d> <etype> <data> <flags|-> <answers|->
                                   -> log <t>@<etype>@<data>[!u|!e]|… out <o1> [<o2>] <run|end> ret <ok|u|e|notready>
 repeat advance <t µs> <flags|-> <answers|->            -> log … out … <run|end>
 repeat stop                                               -> ok
+repeat ctor <R|E> <etype: s<hex>|C|T|O> <interval value|-> <count|n>
+                     -> ok <interval num/den> <count|n> | ok plain | ok repeat <interval> <count|n> | err <Class>
 ```
+`ctor R`: `Repeat(dest=, etype=, interval=, count=)`; `ctor E`: `Event(dest, etype[, repeat=interval], count=)`
+(`C` an EventCond, `T` another EventType object, `O` an object that is neither)
 `x`: sent with `ExtEvent.send` (needs a running simulation), `d`: `block.event()` called directly;
 `answers`: a string over `o`/`u`/`e` – what the destination answers to the deliveries of this step
 (accepted / EdzedUnknownEvent / another exception), all of them must be consumed;
@@ -93,6 +98,38 @@ def reply2 (d : DState) (ret : String) : Option (Chain × List Sent) → DState 
       s!"{renderLog r.2} out {r.1.s1.out} {r.1.s2.out} {renderRun r.1.s1}{ret}")
   | none => (d, "err IllegalChoice")
 
+def parseETy (s : String) : Option Gen.TrC.ETy :=
+  if s == "C" then some .eventCond
+  else if s == "T" then some .eventType
+  else if s == "O" then some (.other true)
+  else (parseStr s).map .str
+
+def renderCount : Option Int → String
+  | none => "n"
+  | some n => toString n
+
+def handleCtor (via ety iv cnt : String) : String :=
+  -- `repeat=None` is "no repetition": Python's optional argument
+  match parseETy ety, (if iv == "-" || (via == "E" && iv == "n") then some none else (Val.parse iv).map some),
+      parseCount cnt with
+  | some ety, some iv, some cnt =>
+    let dest : Gen.TrC.Dest := .block "p"
+    if via == "R" then
+      match iv with
+      | none => "bad-op"
+      | some v =>
+        match RepeatCtor.repeatNew dest ety v cnt with
+        | .ok rc => s!"ok {ratRender rc.interval} {renderCount rc.count}"
+        | .error e => "err " ++ e
+    else if via == "E" then
+      match RepeatCtor.eventNew dest ety iv cnt true with
+      | .ok ⟨.repeatOf d e i c, e2⟩ =>
+        if d == dest && e == ety && e2 == ety then s!"ok repeat {ratRender i} {renderCount c}" else "ok misdirected"
+      | .ok ⟨d, e2⟩ => if d == dest && e2 == ety then "ok plain" else "ok misdirected"
+      | .error e => "err " ++ e
+    else "bad-op"
+  | _, _, _ => "bad-op"
+
 def handle (d : DState) : List String → DState × String
   | ["reset", n, e, i, k] =>
     match parseCfg n e i k with
@@ -130,6 +167,7 @@ def handle (d : DState) : List String → DState × String
       | some c2 =>
         if an.isEmpty then reply2 d "" (Chain.advance d.c1 c2 d.ch t fl) else (d, "err IllegalChoice")
     | _, _, _ => (d, "bad-op")
+  | ["ctor", via, ety, iv, cnt] => (d, handleCtor via ety iv cnt)
   | ["stop"] => ({ d with s := stop d.s, ch := d.ch.stop }, "ok")
   | _ => (d, "bad-op")
 
